@@ -24,6 +24,17 @@ def firstOversized : Nat → Bytes → Nat → Nat → Option (Nat × Nat)
       else firstOversized fuel (bs.drop (hdr + len)) max (off + hdr + len)
     | _ => none
 
+/-- an operation run in a child process: judged, not predicted — the child returned, and (manyempty) with the
+    message "az" and no error -/
+def c15iso (a : List String) (obs : String) : String × String :=
+  if obs.startsWith "SKIP" then (obs, "skip") else
+  (obs,
+    if obs.startsWith "CRASH" then "bad:process-died-on-input-from-the-peer"
+    else if obs.startsWith "PANIC" then "bad:panic"
+    else if obs.startsWith "HANG" then "bad:hang"
+    else if a.headD "" == "manyempty" && obs != "nil 617a" then "bad:message-not-delivered"
+    else "ok")
+
 def c15fz (a : List String) (obs : String) : String × String :=
   match a with
   | entry :: hex :: rest =>
